@@ -79,7 +79,7 @@ func checkC02(c *Checker) {
 				if isPtr && p.Obj != nil && p.Obj.Kind == OFresh && len(p.Path) == 0 {
 					hdr, okHdr = o.St.mem[p.Obj].(StructV)
 				}
-				if !okHdr || len(hdr.F) < 3 {
+				if !okHdr || len(hdr.F) < 2 {
 					c.refuted("C02-R2", "Buffer.Slice/header", c.pos(o.Pos), "result is not a fresh Buffer header: "+valString(o.Ret), "")
 					continue
 				}
@@ -88,31 +88,56 @@ func checkC02(c *Checker) {
 					c.undecided("C02-R2", "Buffer.Slice/header", c.pos(o.Pos), "cannot resolve the fields channels/data/bitDepth of Buffer")
 					continue
 				}
-				d, isSl := hdr.F[fi.data].(SliceV)
+				d, isSl := fi.at(hdr, fi.data).(SliceV)
 				wantOff := specMul(b.ch(), start)
 				okData := isSl && d.Stor != nil && d.Stor.Name == b.stor() && eqInt(d.Off, wantOff) &&
 					eqInt(d.Len, specMul(b.ch(), specSub(end, start))) && eqInt(d.Cap, specSub(b.capT(), wantOff))
-				// the slice expression itself: two-index, unclamped operands
+				// the slice expressions themselves: together they must check exactly what data[lo:hi] checks
+				// (0 <= lo <= hi <= cap), no clamping and no extra precondition, however the cut is spelled
 				nSlice := 0
+				wantHi := specMul(b.ch(), end)
+				spec := &Facts{}
+				spec.add(Cond{Kind: CGE0, P: normInt(wantOff)})
+				spec.add(Cond{Kind: CGE0, P: normInt(wantHi).Sub(normInt(wantOff))})
+				spec.add(Cond{Kind: CGE0, P: normInt(b.capT()).Sub(normInt(wantHi))})
+				spec.add(Cond{Kind: CGE0, P: normInt(b.capT()).Sub(normInt(b.lenT()))})
+				spec.add(Cond{Kind: CGE0, P: normInt(b.lenT())})
+				got := &Facts{}
+				got.add(Cond{Kind: CGE0, P: normInt(b.capT()).Sub(normInt(b.lenT()))})
+				got.add(Cond{Kind: CGE0, P: normInt(b.lenT())})
 				for _, e := range effectsOf(o, EIndex) {
 					if e.Note != "slice" {
 						continue
 					}
 					nSlice++
-					if e.Max != nil || !eqInt(e.Lo, wantOff) || !eqInt(e.Hi, specMul(b.ch(), end)) || e.Stor == nil || e.Stor.Name != b.stor() {
-						okData = false
+					lo, hi, top := normInt(e.Lo), normInt(e.Hi), normInt(e.N)
+					conds := []*Poly{lo, hi.Sub(lo), top.Sub(hi)}
+					if e.Max != nil {
+						mx := normInt(e.Max)
+						conds = []*Poly{lo, hi.Sub(lo), mx.Sub(hi), top.Sub(mx)}
+					}
+					for _, q := range conds {
+						got.add(Cond{Kind: CGE0, P: q})
+						if !spec.impliesGE0(q) {
+							okData = false // an extra precondition: panics where data[lo:hi] does not
+						}
+					}
+				}
+				for _, sc := range spec.list[:3] {
+					if !got.impliesGE0(sc.P) {
+						okData = false // a missing check: does not panic where data[lo:hi] does
 					}
 				}
 				detail := ""
 				if isSl {
 					detail = valString(d)
 				}
-				c.expect(okData && nSlice == 1, "C02-R1", "Buffer.Slice", c.pos(o.Pos), "data[channels*start : channels*end] of the same storage",
+				c.expect(okData && nSlice >= 1, "C02-R1", "Buffer.Slice", c.pos(o.Pos), "data[channels*start : channels*end] of the same storage",
 					fmt.Sprintf("new data is not the two-index reslice data[channels*start:channels*end] of the receiver's storage (%d slice expressions): %s", nSlice, detail))
-				chOK := valTerm(hdr.F[fi.channels]) != nil && eqInt(valTerm(hdr.F[fi.channels]), b.ch())
-				c.expect(chOK, "C02-R2", "Buffer.Slice/channels", c.pos(o.Pos), "channels copied", "channels of the view is "+valString(hdr.F[fi.channels]))
-				bdOK := valTerm(hdr.F[fi.bitDepth]) != nil && eqInt(valTerm(hdr.F[fi.bitDepth]), b.depth())
-				c.expect(bdOK, "C02-R2", "Buffer.Slice/bitDepth", c.pos(o.Pos), "bitDepth copied", "bitDepth of the view is "+valString(hdr.F[fi.bitDepth]))
+				chOK := valTerm(fi.at(hdr, fi.channels)) != nil && eqInt(valTerm(fi.at(hdr, fi.channels)), b.ch())
+				c.expect(chOK, "C02-R2", "Buffer.Slice/channels", c.pos(o.Pos), "channels copied", "channels of the view is "+valString(fi.at(hdr, fi.channels)))
+				bdOK := valTerm(fi.at(hdr, fi.bitDepth)) != nil && eqInt(valTerm(fi.at(hdr, fi.bitDepth)), b.depth())
+				c.expect(bdOK, "C02-R2", "Buffer.Slice/bitDepth", c.pos(o.Pos), "bitDepth copied", "bitDepth of the view is "+valString(fi.at(hdr, fi.bitDepth)))
 				m := mods(o)
 				c.expect(len(m) == 0, "C02-R2", "Buffer.Slice/receiver", c.pos(o.Pos), "no store to the receiver or anything else", "Slice modifies memory: "+describeEffects(m))
 			}
@@ -121,25 +146,14 @@ func checkC02(c *Checker) {
 	accessorForms(c, "C02-R3")
 }
 
-type bufFields struct{ channels, data, bitDepth int }
+type bufFields struct{ channels, data, bitDepth []int }
 
 func bufferFields(t types.Type) *bufFields {
-	st, ok := t.Underlying().(*types.Struct)
-	if !ok {
+	if _, ok := t.Underlying().(*types.Struct); !ok {
 		return nil
 	}
-	f := &bufFields{-1, -1, -1}
-	for i := 0; i < st.NumFields(); i++ {
-		switch st.Field(i).Name() {
-		case "channels":
-			f.channels = i
-		case "data":
-			f.data = i
-		case "bitDepth":
-			f.bitDepth = i
-		}
-	}
-	if f.channels < 0 || f.data < 0 || f.bitDepth < 0 {
+	f := &bufFields{channels: indexPath(t, hdrLayout.ch), data: indexPath(t, hdrLayout.data), bitDepth: indexPath(t, hdrLayout.depth)}
+	if f.channels == nil || f.data == nil || f.bitDepth == nil {
 		return nil
 	}
 	return f
@@ -179,7 +193,7 @@ func checkC04(c *Checker) {
 				switch {
 				case e.Kind == EStoreElem && e.Stor.Name == b.stor() && eqInt(e.Idx, b.lenT()) && valTerm(e.Val) != nil && valTerm(e.Val).Key() == v.Key() && !okStore:
 					okStore = true
-				case e.Kind == EStoreField && e.Obj.Name == b.obj() && fi != nil && len(e.Path) == 1 && e.Path[0] == fi.data && !okHdr:
+				case e.Kind == EStoreField && e.Obj.Name == b.obj() && fi != nil && pathEq(e.Path, fi.data) && !okHdr:
 					d, isSl := e.Val.(SliceV)
 					okHdr = isSl && d.Stor != nil && d.Stor.Name == b.stor() && eqInt(d.Off, zeroT()) && eqInt(d.Len, specAdd(b.lenT(), mkInt(1, intT))) && eqInt(d.Cap, b.capT())
 					if !okHdr {
@@ -366,17 +380,17 @@ func checkC13(c *Checker) {
 				}
 				hdr, _ := o.St.mem[p.Obj].(StructV)
 				fi := bufferFields(p.Obj.Typ)
-				if fi == nil || len(hdr.F) < 3 {
+				if fi == nil || len(hdr.F) < 2 {
 					okAll, detail = false, "cannot resolve Buffer fields"
 					break
 				}
-				d, isSl := hdr.F[fi.data].(SliceV)
+				d, isSl := fi.at(hdr, fi.data).(SliceV)
 				if !isSl || d.Stor == nil || d.Stor.Kind != SFresh || !eqInt(d.Off, zeroT()) || !eqInt(d.Len, specMul(chn, ln)) || !eqInt(d.Cap, specMul(chn, cp)) {
-					okAll, detail = false, "data is not make([]T, Channels*Length, Channels*Capacity): "+valString(hdr.F[fi.data])
+					okAll, detail = false, "data is not make([]T, Channels*Length, Channels*Capacity): "+valString(fi.at(hdr, fi.data))
 					break
 				}
-				if t := valTerm(hdr.F[fi.channels]); t == nil || !eqInt(t, chn) {
-					okAll, detail = false, "channels is "+valString(hdr.F[fi.channels])
+				if t := valTerm(fi.at(hdr, fi.channels)); t == nil || !eqInt(t, chn) {
+					okAll, detail = false, "channels is "+valString(fi.at(hdr, fi.channels))
 					break
 				}
 				nMake := 0
@@ -481,10 +495,10 @@ func (c *Checker) bitDepthViaAlloc(tname string) {
 		}
 		hdr, _ := o.St.mem[p.Obj].(StructV)
 		fi := bufferFields(p.Obj.Typ)
-		if fi == nil || len(hdr.F) < 3 {
+		if fi == nil || len(hdr.F) < 2 {
 			continue
 		}
-		c.bitDepthVerdict(inst, tname, valTerm(hdr.F[fi.bitDepth]), fn)
+		c.bitDepthVerdict(inst, tname, valTerm(fi.at(hdr, fi.bitDepth)), fn)
 		return
 	}
 	c.undecided("C13-A2", inst, c.pos(fn.Pos()), "no return path with a header")
@@ -508,8 +522,8 @@ func (c *Checker) depthOf(tname string) (int64, bool) {
 			for _, o := range retPaths(s) {
 				if p, ok := o.Ret.(PtrV); ok && p.Obj != nil {
 					hdr, _ := o.St.mem[p.Obj].(StructV)
-					if fi := bufferFields(p.Obj.Typ); fi != nil && len(hdr.F) >= 3 {
-						if v, ok := normIntConst(valTerm(hdr.F[fi.bitDepth])); ok {
+					if fi := bufferFields(p.Obj.Typ); fi != nil && len(hdr.F) >= 2 {
+						if v, ok := normIntConst(valTerm(fi.at(hdr, fi.bitDepth))); ok {
 							return v, true
 						}
 					}
